@@ -364,6 +364,7 @@ void exec_step(const J &st, int incb) {
   std::string op = st["op"].str();
   if (g_channel == nullptr && op != "noop") return;  // destroyed: nothing else is legal
   ares_dns_rec_type_t qt = (ares_dns_rec_type_t)st["qt"].num(ARES_REC_TYPE_A);
+  ares_dns_class_t    qc = (ares_dns_class_t)st["qc"].num(ARES_CLASS_IN);
   std::string         name = st["name"].str();
 
   if (op == "query" || op == "send" || op == "search" || op == "lquery" || op == "lsearch" || op == "lsend") {
@@ -373,22 +374,22 @@ void exec_step(const J &st, int incb) {
     if (!kname.empty() && kname.back() == '.') kname.pop_back();
     int dots = 0;
     for (char c : name) if (c == '.') dots++;
-    ev("{\"e\":\"call\",\"api\":\"%s\",\"t\":%d,\"dots\":%d,\"enddot\":%d,\"wname\":%s,\"name\":%s,\"kname\":%s,\"qt\":%d,\"rd\":%d,\"cd\":%d,\"now\":%lld,\"depth\":%d,\"incb\":%d}", op.c_str(), tok->id,
-       dots, (!name.empty() && name.back() == '.') ? 1 : 0, jstr((!name.empty() && name.back() == '.') ? name.substr(0, name.size() - 1) : name).c_str(), jstr(name).c_str(), jstr(kname).c_str(), (int)qt, (int)(st["nord"].num() ? 0 : 1), (int)(st["cd"].num() ? 1 : 0), g_now_ms, g_depth, incb);
+    ev("{\"e\":\"call\",\"api\":\"%s\",\"t\":%d,\"dots\":%d,\"enddot\":%d,\"wname\":%s,\"name\":%s,\"kname\":%s,\"qt\":%d,\"qc\":%d,\"rd\":%d,\"cd\":%d,\"now\":%lld,\"depth\":%d,\"incb\":%d}", op.c_str(), tok->id,
+       dots, (!name.empty() && name.back() == '.') ? 1 : 0, jstr((!name.empty() && name.back() == '.') ? name.substr(0, name.size() - 1) : name).c_str(), jstr(name).c_str(), jstr(kname).c_str(), (int)qt, (int)qc, (int)(st["nord"].num() ? 0 : 1), (int)(st["cd"].num() ? 1 : 0), g_now_ms, g_depth, incb);
     g_depth++;
     int rc = -1;
     unsigned short qid = 0;
     if (op == "query") {
-      rc = ares_query_dnsrec(g_channel, name.c_str(), ARES_CLASS_IN, qt, dnsrec_cb, tok, &qid);
+      rc = ares_query_dnsrec(g_channel, name.c_str(), qc, qt, dnsrec_cb, tok, &qid);
     } else if (op == "lquery") {
-      ares_query(g_channel, name.c_str(), ARES_CLASS_IN, (int)qt, legacy_cb, tok);
+      ares_query(g_channel, name.c_str(), (int)qc, (int)qt, legacy_cb, tok);
     } else if (op == "lsearch") {
       ares_search(g_channel, name.c_str(), ARES_CLASS_IN, (int)qt, legacy_cb, tok);
     } else {
       ares_dns_record_t *rec = nullptr;
       unsigned short     fl  = st["nord"].num() ? 0 : ARES_FLAG_RD;
       if (st["cd"].num()) fl |= ARES_FLAG_CD;
-      ares_status_t s = ares_dns_record_create_query(&rec, name.c_str(), ARES_CLASS_IN, qt, 0, (ares_dns_flags_t)fl,
+      ares_status_t s = ares_dns_record_create_query(&rec, name.c_str(), qc, qt, 0, (ares_dns_flags_t)fl,
                                                      g_cfg["edns"].num(0) ? (size_t)g_cfg["ednspsz"].num(1232) : 0);
       if (s != ARES_SUCCESS) {
         rc = (int)s;
